@@ -42,11 +42,11 @@ var cfgVariants = []string{
 	0: "General:\n  ConfigurationVersion: 2\n  ConfigReloadInterval: 1s\nTraces:\n  SendDelay: 2s\n",
 	1: "General:\n  ConfigurationVersion: 2\n  ConfigReloadInterval: 1s\nTraces:\n  SendDelay: 3s\n",
 	2: "General:\n  ConfigurationVersion: 2\n  ConfigReloadInterval: 1s\nTraces:\n  SendDelay: 4s\nCollection:\n  CacheCapacity: 1000\n", // deprecated setting: warning only
-	3: "General:\n  ConfigurationVersion: 2\n  ConfigReloadInterval: 1s\nTraces:\n  SendDelay: notaduration\n",                          // invalid
-	4: "General:\n  ConfigurationVersion: 2\n  ConfigReloadInterval: 1s\nTraces:\n  SendDelay: [",                                      // torn write
+	3: "General:\n  ConfigurationVersion: 2\n  ConfigReloadInterval: 1s\nTraces:\n  SendDelay: notaduration\n",                           // invalid
+	4: "General:\n  ConfigurationVersion: 2\n  ConfigReloadInterval: 1s\nTraces:\n  SendDelay: [",                                        // torn write
 	5: "\x00unreadable",
 	6: "General:\n  ConfigurationVersion: 2\n  ConfigReloadInterval: 1s\nTraces:\n  SendDelay: 5s\n",
-	7: "General:\n  ConfigurationVersion: 2\n  ConfigReloadInterval: 1s\nTraces:\n  SendDelay: 6s\n  NoSuchSetting: 1\n", // unknown field
+	7: "General:\n  ConfigurationVersion: 2\n  ConfigReloadInterval: 1s\nTraces:\n  SendDelay: 6s\n  NoSuchSetting: 1\n",                 // unknown field
 	8: "General:\n  ConfigurationVersion: 2\n  ConfigReloadInterval: 1s\nTraces:\n  SendDelay: 7s\nCollection:\n  CacheCapacity: 2000\n", // another warning-only content
 }
 
@@ -107,13 +107,13 @@ func genConfig(r *Rng, tier string, p *Plan) {
 }
 
 type cfgWorld struct {
-	out       *Outcome
-	dir       string
-	opts      *config.CmdEnv
-	cfg       config.Config
-	mu        sync.Mutex
-	curCfg    int
-	curRules  int
+	out      *Outcome
+	dir      string
+	opts     *config.CmdEnv
+	cfg      config.Config
+	mu       sync.Mutex
+	curCfg   int
+	curRules int
 	// model (fold over observed reload entries)
 	appliedMain, appliedRules string
 	appliedDelay              time.Duration
